@@ -4,8 +4,8 @@ from core import Case
 import c10_common as C
 
 PROP = 'C10'
-COQ_TARGETS = ['theories/AsapFacts.vo']
-COQ_IMPORTS = 'From Bac Require Import Base Asap.'
+COQ_TARGETS = ['theories/AsapFacts.vo', 'theories/AsapCodecFacts.vo']
+COQ_IMPORTS = 'From Bac Require Import Base.\nFrom Bac Require Import Tag.\nFrom Bac Require Import Asap.\nFrom Bac Require Import AsapCodec.'
 RULE = ('valid confirmed requests of every supported service (ReadProperty, WriteProperty, ReadPropertyMultiple, SubscribeCOV, '
         'DeviceCommunicationControl, AtomicReadFile/WriteFile, one unsupported and one unknown service) x every truncation, '
         '6 substitutions per parameter octet and 7 insertions per position with the fixed header intact, sent as raw frames to a full '
@@ -14,8 +14,8 @@ RULE = ('valid confirmed requests of every supported service (ReadProperty, Writ
         'with the invoke ID, no transaction/timer residue, garbage (random octets at network and application layer, corrupted '
         'headers) interleaved with valid requests in one instant, and a valid request afterwards.  non-trivial = the mutated frame '
         'differs from the valid one; distinct by octets.')
-TRUSTED = ['model coq/theories/Asap.v = the dispatch and error mapping of ApplicationServiceAccessPoint.indication and Application.indication; '
-           'parameter decoding and service execution enter the model as observed outcomes (they are modelled under C03/C15/C16)',
+TRUSTED = ['model coq/theories/Asap.v + AsapCodec.v = service lookup (registry translated from apdu.py), parameter decoding by the C03 codec model, dispatch and error mapping of ApplicationServiceAccessPoint.indication and Application.indication; '
+           'service execution enters the model as an observed outcome (modelled under C15/C16)',
            'the transport half (ServerSSM) is modelled under C04/C12']
 ASSUMPTIONS = ['replies are observed on the virtual LAN by a bare node with an independent minimal NPDU/APDU parser',
                'link-layer (BVLL) garbage is injected as raw datagrams toward a B/IP device (BIPSimple + AnnexJCodec over a socket-free multiplexer) in the direct check']
@@ -108,6 +108,20 @@ ERRNAMES = {1: 'DecodingError', 2: 'InvalidTag', 3: 'MissingRequired', 4: 'Inval
             13: 'OverflowErr', 14: 'NameErr', 15: 'RuntimeErr', 16: 'UnicodeErr', 18: 'OtherErr', 100: 'OtherErr', 200: 'OtherErr'}
 
 
+def coq_octets(apdu, helper, x):
+    """the model decodes the parameter octets itself (C03 codec over the translated registry)"""
+    from core import nlist
+    h = C.header_len(apdu)
+    xs = x[0] if len(x) == 1 else '(' + x[0] + ' ' + ' '.join(str(v) for v in x[1:]) + ')'
+    return 'canon_octets %d %s %s %s' % (apdu[h - 1], nlist(list(apdu[h:])), 'true' if helper else 'false', xs)
+
+
+def canon_dec_out(known, d):
+    if not known:
+        return [0]
+    return {'DOk': [1], 'DReject': [2], 'DAbort': [3], 'DExn': [4]}[d[0]] + list(d[1:])
+
+
 def coq_of(known, d, helper, x):
     b = lambda v: 'true' if v else 'false'
     if d[0] == 'DExn':
@@ -159,7 +173,7 @@ def cases(rng, tier):
             got = canon_reply_frames(w.replies(), INVOKE)
             flat = [len(got)] + [v for r in got for v in r]
             known, d, helper, x = oracle_inputs(m)
-            out.append(Case(name, coq_of(known, d, helper, x), flat, key=bytes(m), nontrivial=(how != 'valid'),
+            out.append(Case(name, coq_octets(m, helper, x), canon_dec_out(known, d) + flat, key=bytes(m), nontrivial=(how != 'valid'),
                             desc={'request': name, 'mutation': how, 'apdu': bytes(m).hex(),
                                   'decode_outcome': list(d), 'service_outcome': list(x)}))
     return out
